@@ -66,3 +66,12 @@ PROPS['C13'] = dict(
     assumptions=[],
     explanation="",
 )
+
+from contracts import dumpc
+PROPS['C17'] = dict(
+    units=list(dumpc.UNITS),
+    level='proof',
+    min_obligations=100,
+    assumptions=[],
+    explanation="",
+)
